@@ -37,3 +37,11 @@ Theorem C08_ill_typed_parameter : forall f e fs m n t x,
   In (n, t) fs -> obj_get n m = Some x -> (forall f', dec f' e t x = None) -> dec_top f e fs (JObj m) = None.
 Proof. exact dec_top_bad_member. Qed.
 Print Assumptions C08_ill_typed_parameter.
+
+(* tie: the functions this property's model describes by hand (not by translation) still have the pinned text; an
+   edit to one of them breaks this obligation and sends the check searching for a failing input *)
+From VL Require Import ShapeFacts.
+From VLG Require Import ShapeGen.
+Theorem C08_modelled_code_is_the_pinned_text : shapes_for_C08 = true.
+Proof. exact shapes_C08_ok. Qed.
+Print Assumptions C08_modelled_code_is_the_pinned_text.
